@@ -1,6 +1,6 @@
 (* C05 — Operator precedence, associativity and grouping follow the documented table (and C09's parentheses clause). *)
 Require Import Parser Api Shape Build Printer.
-Require Import ParserRoundTrip.
+Require Import ParserRoundTrip ParserRoundTripV.
 From Coq Require Import List String.
 Import ListNotations.
 
@@ -13,6 +13,12 @@ Theorem C05_print_parse_roundtrip : forall (o : oracle) (t : qt), wfq o t ->
   exists k, steps o k (mk [] [start] (pr t ++ [eof])) = Accept (want o t).
 Proof. exact roundtrip. Qed.
 
+(* the same through the whole of Parse's token-level work (the parser loop within its fuel 4n+4, then Validate): the result is
+   exactly the expected tree *)
+Theorem C05_printed_tree_parses_to_itself : forall (o : oracle) (t : qt), wfq o t ->
+  parse_toks o "" (pr t ++ [eof]) = PTree (want o t).
+Proof. exact printed_tree_parses. Qed.
+
 (* a parenthesised OR-chain of two or more plain values under a field is the value list IN(field, LIST[...]) *)
 Theorem C05_value_list : forall (o : oracle) (f ct v : token) (vs : list token),
   is_plain (parse_literal o v) = true -> forallb is_plain (map (parse_literal o) vs) = true -> vs <> [] ->
@@ -20,4 +26,5 @@ Theorem C05_value_list : forall (o : oracle) (f ct v : token) (vs : list token),
 Proof. exact list_tree. Qed.
 
 Print Assumptions C05_print_parse_roundtrip.
+Print Assumptions C05_printed_tree_parses_to_itself.
 Print Assumptions C05_value_list.
